@@ -2,16 +2,22 @@
 statements and the documented run-to-completion algorithm.  It consumes the same environment answers
 (by label) as the implementation and produces a trace in the same token format.
 
-Dialects (only where the documentation says the back-ends differ):
-  'back'  : back / back11  -- message queue + separate deferred queue per machine, completion re-tried
-            after every handled event, deferral per region through a defer row
-  'mp11'  : backmp11       -- one event pool per machine, completion only on entry, deferral decided
-            for the whole machine before dispatch
+The step function (selection, bubbling, exit/action/entry order, history, pseudo states) is common.
+The run-to-completion layer exists in two dialects, only where the documentation says the back-ends
+differ:
+  'back'  : back / back11 -- per machine a message queue and a separate deferred queue; completion
+            events are re-tried after every handled event; deferral per region through the state's
+            deferred_events or a Defer row; deferred queue before message queue
+  'mp11'  : backmp11      -- per machine one event pool; completion occurrences are put at the front
+            of the pool when their source state is entered; deferral is decided for the whole machine
+            (recursively) before dispatch
+Where an implementation detail contradicts a property statement the model follows the statement
+(each such place is marked PROPERTY).
 """
-import copy
 from desc import *
 
 HF, HT, HG, HD = 0, 1, 2, 4
+DIRECT, MSGQ, DEFERRED = 1, 2, 4
 
 
 class Injected(Exception):
@@ -23,20 +29,31 @@ class ModelError(Exception):
 
 
 class Ev:
-    __slots__ = ('name', 'serial', 'kind', 'fresh', 'wrapped', 'anyof')
+    __slots__ = ('name', 'serial', 'flags', 'seq', 'wrapped', 'anyof', 'kind', 'marked', 'region', 'state')
 
     def __init__(self, name, serial, kind='e'):
         self.name = name        # event name, None = completion, '$start' / '$stop'
         self.serial = serial
-        self.kind = kind
-        self.fresh = False
+        self.kind = kind        # 'e' event, 'c' completion occurrence (mp11 pool)
+        self.flags = 0          # back: EventSource flags of a queued call
+        self.seq = 0            # deferral sequence number
         self.wrapped = False    # back: direct_entry_event wrapper seen by the machine's own on_entry
         self.anyof = False      # Kleene row: callback receives an 'any' holding this event
+        self.marked = False     # mp11: processed, waiting to be erased from the pool
+        self.region = -1
+        self.state = None
 
     def clone(self):
         e = Ev(self.name, self.serial, self.kind)
-        e.fresh = self.fresh
+        e.flags = self.flags
+        e.seq = self.seq
+        e.marked = self.marked
+        e.region = self.region
+        e.state = self.state
         return e
+
+    def plain(self):
+        return Ev(self.name, self.serial)
 
 
 class MS:
@@ -44,16 +61,19 @@ class MS:
 
     def __init__(self, m: Machine):
         self.m = m
-        n = len(m.initial)
-        self.active = list(m.initial)          # library initialises the ids to the initial states
+        self.active = list(m.initial)          # the library initialises the ids to the initial states
         self.hist = list(m.initial)
         self.inside = False
         self.processing = False
-        self.queue = []                        # pending submissions (message queue / event pool)
-        self.deferred = []                     # back dialect: deferred queue
+        self.queue = []                        # message queue (back) / event pool (mp11)
+        self.deferred = []                     # back: deferred queue
+        self.cur_seq = 0
         self.subs = {s.name: MS(s.sub) for s in m.states if s.kind == 'sub'}
+        self.parent = None
+        for s in self.subs.values():
+            s.parent = self
 
-    def clone(self):
+    def clone(self, parent=None):
         c = MS.__new__(MS)
         c.m = self.m
         c.active = list(self.active)
@@ -62,7 +82,9 @@ class MS:
         c.processing = self.processing
         c.queue = [e.clone() for e in self.queue]
         c.deferred = [e.clone() for e in self.deferred]
-        c.subs = {k: v.clone() for k, v in self.subs.items()}
+        c.cur_seq = self.cur_seq
+        c.parent = parent
+        c.subs = {k: v.clone(c) for k, v in self.subs.items()}
         return c
 
 
@@ -77,15 +99,20 @@ class World:
         self.cmemo = {}
         self.next_serial = 1
         self.started = False
+        self.seqmod = 256 if dialect == 'back' else 65536
+        self.swallowed = set()  # serials dropped by a blocking state (C11): never replayed
+        self.cur_op = ''
         # per operation
         self.tape = {}
         self.trace = []
         self.occ = {}
         self.asked = set()
-        self.depth = 0
+        self.lost = []          # serials the model knows were dropped by design (blocking states, pool reset)
+        self.flags = set()      # structural situations the known-findings file refers to
+        self.tstack = []        # machines currently executing a transition / exit cascade
 
     def clone(self):
-        w = World.__new__(World)
+        w = self.__class__.__new__(self.__class__)
         w.z = self.z
         w.dialect = self.dialect
         w.opts = self.opts
@@ -95,11 +122,16 @@ class World:
         w.cmemo = dict(self.cmemo)
         w.next_serial = self.next_serial
         w.started = self.started
+        w.seqmod = self.seqmod
+        w.swallowed = set(self.swallowed)
+        w.cur_op = ''
         w.tape = {}
         w.trace = []
         w.occ = {}
         w.asked = set()
-        w.depth = 0
+        w.lost = []
+        w.flags = set()
+        w.tstack = []
         return w
 
     # ------------------------------------------------------------------ environment
@@ -128,8 +160,15 @@ class World:
     def callback(self, K, fsm: MS, ident, ev: Ev, csrc=-1):
         owner = fsm.m.mid
         key = f'{K}.{owner}.{ident}.{ev.serial}'
-        k = self.occ.get(key, 0)
-        self.occ[key] = k + 1
+        fresh = True
+        if K == 'G' and ev.name is None and csrc >= 0:
+            cm = self.cmemo.get(ident)
+            if cm is not None and cm[1] == self.entries.get(csrc, 0):
+                fresh = False
+        k = 0
+        if fresh:
+            k = self.occ.get(key, 0)
+            self.occ[key] = k + 1
         t = f'{K}:{owner}:{ident}:{self.evtok(ev)}:{self.acttok(fsm)}'
         answer = True
         if K == 'N':
@@ -151,10 +190,10 @@ class World:
             answer = (c == 0)
             t += ':1' if answer else ':0'
         self.trace.append(t)
-        faults = self.opts.get('faults', False)
+        faults = self.opts.get('faults', False) and self.cur_op not in ('start', 'stop')
         n_menu = self.opts.get('n_menu', 0)
         pos_kind = K in 'GANXC' or (K == 'T' and self.opts.get('submit_in_nt', False))
-        if pos_kind:
+        if pos_kind and fresh:
             can_throw = faults and K in 'GANX'
             n = 1 + (1 if can_throw else 0) + n_menu
             if n > 1:
@@ -169,6 +208,15 @@ class World:
                     self.trace.append('!submitted')
         return answer
 
+    def deferq(self, st: State, ev: Ev):
+        """backmp11 conditional deferral: the state's is_event_deferred() answer is a choice"""
+        key = f'D.{st.sid}.{ev.serial}'
+        k = self.occ.get(key, 0)
+        self.occ[key] = k + 1
+        c = self.choose(f'd{st.sid}.{ev.serial}.{k}')
+        self.trace.append(f'D:{st.sid}:{self.evtok(ev)}:{"1" if c == 0 else "0"}')
+        return c == 0
+
     def submit(self, fsm: MS, alt):
         api, ename, tgt = self.z.menu[alt]
         s = self.next_serial
@@ -176,35 +224,31 @@ class World:
         self.trace.append(f'!new:{self.z.eid[ename]}#{s}:{api}:{tgt}:{fsm.m.mid}')
         target = fsm if tgt == 'local' else self.root
         ev = Ev(ename, s)
+        if not target.processing and self.tstack:
+            # a behaviour running inside some machine's transition talks to a machine that is not
+            # marked as processing (exit cascade of a submachine driven by an enclosing machine, stop())
+            self.flags.add('submission-to-idle-machine-during-foreign-step:' + api)
         if api == 'pe':
-            self.process_event(target, ev, direct=True)
+            self.api_process_event(target, ev)
         elif api == 'eq':
-            self.enqueue(target, ev)
+            self.api_enqueue(target, ev)
         elif api == 'df':
-            self.defer_api(target, ev)
+            self.api_defer(target, ev)
 
     # ------------------------------------------------------------------ structure helpers
-    def is_blocking_active(self, ms: MS, ev: Ev):
+    def blocked(self, ms: MS, ev: Ev):
         """terminate state active, or interrupt state active and ev not one of its end events (C11)"""
-        term = False
-        intr = False
-        endok = False
-        for n in self.active_states_rec(ms):
-            st = n
+        if not any(s.kind in ('terminate', 'interrupt') for s in ms.m.states):
+            return False
+        term = intr = endok = False
+        for st in self.active_states_rec(ms):
             if st.kind == 'terminate':
                 term = True
             if st.kind == 'interrupt':
                 intr = True
-                if ev.name in st.end_events:
+                if ev.name is not None and ev.name in st.end_events:
                     endok = True
-        if term:
-            return True
-        if intr and not endok:
-            return True
-        return False
-
-    def has_blocking(self, m: Machine):
-        return any(s.kind in ('terminate', 'interrupt') for s in m.states)
+        return term or (intr and not endok)
 
     def active_states_rec(self, ms: MS):
         out = []
@@ -222,7 +266,7 @@ class World:
         if trigger is None:
             return False
         if trigger == '*':
-            return self.dialect_kleene_ok()
+            return True
         n = ev.name
         while n is not None:
             if n == trigger:
@@ -230,8 +274,11 @@ class World:
             n = self.z.bases.get(n)
         return False
 
-    def dialect_kleene_ok(self):
-        return True
+    def has_completion(self, m: Machine):
+        return any(r.evt is None for r in m.rows)
+
+    def state_has_completion(self, m: Machine, sname):
+        return any(r.evt is None and row_src_state(m, r) == sname for r in m.rows)
 
     # ------------------------------------------------------------------ the step function
     def dispatch(self, ms: MS, ev: Ev, direct: bool):
@@ -240,7 +287,7 @@ class World:
         result = HF
         for r in range(len(m.initial)):
             result |= self.region_dispatch(ms, r, ev)
-        if not (result & (HT | HD)):
+        if not (result & (HT | HD)) or (self.dialect == 'back' and not (result & HT)):
             result |= self.internal_table(ms, ev)
         if result == HF and direct and ev.name is not None:
             for r in range(len(m.initial)):
@@ -252,17 +299,21 @@ class World:
         sname = ms.active[r]
         st = m.state(sname)
         res = HF
+        if st.kind == 'sub' and ev.name is None and self.opts.get('cfg') == 'bc':
+            # back with favor_compile_time builds no forwarding rows: a completion event raised in the
+            # enclosing machine is not offered to the submachine (which handles its own on entry and
+            # after its own steps)
+            return HF
         if st.kind == 'sub':
-            inner = self.process_event(ms.subs[sname], ev, direct=False, from_parent=True)
+            inner = self.sub_process(ms.subs[sname], ev)
             if inner & (HT | HD):
                 return inner
             res |= inner
             if ms.active[r] != sname:
-                # the submachine was left while it processed the event (exit point); nothing further
                 return res
-        # deferral through the state's deferred_events (back dialect: a defer row for that state)
-        if self.dialect == 'back' and ev.name is not None and self.state_defers(st, ev):
-            self.defer_store(ms, ev)
+        # deferral through the state's deferred_events (back: a defer row for that state)
+        if self.dialect == 'back' and ev.name is not None and ev.name in st.defer:
+            self.back_defer(ms, ev)
             return res | HD
         cands = []
         for ir in reversed(st.irows):
@@ -275,14 +326,13 @@ class World:
                 continue
             if isinstance(row.src, tuple):
                 # exit-point row: candidate only while that exit point is active in the submachine
-                sub = ms.subs[row.src[1]]
-                if row.src[2] not in sub.active:
+                if row.src[2] not in ms.subs[row.src[1]].active:
                     continue
             cands.append(('r', row))
         for kind, row in cands:
             e2 = ev
             if row.evt == '*':
-                e2 = Ev(ev.name, ev.serial)
+                e2 = ev.plain()
                 e2.anyof = True
             if row.g:
                 csrc = st.sid if ev.name is None else -1
@@ -296,14 +346,6 @@ class World:
             return res
         return res
 
-    def state_defers(self, st: State, ev: Ev):
-        n = ev.name
-        while n is not None:
-            if n in st.defer:
-                return True
-            n = None  # deferral lists match the exact type
-        return False
-
     def internal_table(self, ms: MS, ev: Ev):
         res = HF
         for ir in reversed(ms.m.irows):
@@ -311,7 +353,7 @@ class World:
                 continue
             e2 = ev
             if ir.evt == '*':
-                e2 = Ev(ev.name, ev.serial)
+                e2 = ev.plain()
                 e2.anyof = True
             if ir.g and not self.callback('G', ms, ir.gid, e2):
                 res |= HG
@@ -321,23 +363,25 @@ class World:
 
     def run_action(self, ms: MS, row, e2: Ev, ev: Ev):
         if row.defer:
-            self.defer_action(ms, ev)
+            self.action_defer(ms, ev)
             return HD
         if row.a:
             self.callback('A', ms, row.aid, e2)
         return HT
 
     # ------------------------------------------------------------------ transitions
-    def switch_at(self, ms: MS, phase):
-        pol = ms.m.switch
-        order = {'before': 0, 'after_exit': 1, 'after_action': 2, 'after_entry': 3}
-        return order[pol] <= phase
-
     def take(self, ms: MS, r: int, row: Row, e2: Ev, ev: Ev):
         m = ms.m
         src = row_src_state(m, row)
         tgt = row_tgt_state(m, row)
         pol = {'before': 0, 'after_exit': 1, 'after_action': 2, 'after_entry': 3}[m.switch]
+        self.tstack.append(ms)
+        try:
+            return self.take2(ms, r, row, e2, ev, src, tgt, pol)
+        finally:
+            self.tstack.pop()
+
+    def take2(self, ms, r, row, e2, ev, src, tgt, pol):
         if pol == 0:
             ms.active[r] = tgt
         self.exit_state(ms, src, e2)
@@ -345,7 +389,7 @@ class World:
             ms.active[r] = tgt
         res = HT
         if row.defer:
-            self.defer_action(ms, ev)
+            self.action_defer(ms, ev)
             res = HD
         elif row.a:
             self.callback('A', ms, row.aid, e2)
@@ -354,8 +398,7 @@ class World:
         self.enter_state(ms, tgt, e2, row.tgt if isinstance(row.tgt, tuple) else None)
         if pol == 3:
             ms.active[r] = tgt
-        # exit point reached inside a submachine: the enclosing machine takes the connected transition
-        self.after_entry_hooks(ms, r, tgt, e2)
+        self.entered(ms, r, tgt)
         return res
 
     def exit_state(self, ms: MS, sname: str, ev: Ev):
@@ -371,17 +414,12 @@ class World:
         self.callback('X', parent if parent is not None else sub, sub.m.own_sid, ev)
         sub.hist = list(sub.active)
         sub.inside = False
-        self.on_machine_exit(sub, ev)
-
-    def on_machine_exit(self, sub: MS, ev: Ev):
         if self.dialect == 'back':
-            keep = False
             h = sub.m.history
-            if h == 'always':
-                keep = True
-            elif isinstance(h, tuple) and ev.name in h[1]:
-                keep = True
+            keep = (h == 'always') or (isinstance(h, tuple) and ev.name in h[1])
             if not keep:
+                for e in sub.deferred:
+                    self.lost.append(e.serial)
                 sub.deferred = []
 
     def enter_state(self, ms: MS, sname: str, ev: Ev, how=None):
@@ -390,21 +428,16 @@ class World:
             self.enter_machine(ms.subs[sname], ev, ms, how)
         else:
             self.callback('N', ms, st.sid, ev)
+            if st.kind == 'exit_pt':
+                self.forward_exit(ms, st, ev)
 
-    def enter_machine(self, sub: MS, ev: Ev, parent: MS, how=None):
+    def entry_targets(self, sub: MS, ev: Ev, how):
         m = sub.m
-        own_ev = ev
-        if how is not None and self.dialect == 'back':
-            own_ev = Ev(ev.name, ev.serial)
-            own_ev.anyof = ev.anyof
-            own_ev.wrapped = True
         named = {}
         if how is not None:
-            kind = how[0]
-            names = how[2] if kind == 'fork' else [how[2]]
+            names = how[2] if how[0] == 'fork' else [how[2]]
             for n in names:
                 named[m.state(n).region] = n
-        # which state becomes active in each region
         targets = []
         for r in range(len(m.initial)):
             if r in named:
@@ -417,142 +450,20 @@ class World:
                     targets.append(sub.hist[r])
                 else:
                     targets.append(sub.hist[r] if ev.name in h[1] else m.initial[r])
-        if self.dialect == 'mp11':
-            # the pool of a machine without (applicable) history is reset on entry
-            h = m.history
-            if h is None or (isinstance(h, tuple) and ev.name not in h[1]):
-                sub.queue = []
-        sub.processing = True
-        try:
-            self.callback('N', parent if parent is not None else sub, m.own_sid, own_ev)
-            sub.inside = True
-            sub.active = list(targets)
-            order = range(len(m.initial))
-            for r in order:
-                self.enter_state(sub, sub.active[r], ev)
-                self.note_entered(sub, r, sub.active[r])
-        finally:
-            sub.processing = False
-        if how is not None and how[0] == 'entry':
-            # entry point: continue with the inner transition triggered by the same event
-            e3 = Ev(ev.name, ev.serial)
-            self.process_event(sub, e3, direct=True)
-        self.after_machine_entry(sub)
+        return targets
 
-    # ------------------------------------------------------------------ RTC layer
-    def note_entered(self, ms: MS, r: int, sname: str):
+    def history_applies(self, sub: MS, ev: Ev):
+        h = sub.m.history
+        return (h == 'always') or (isinstance(h, tuple) and ev.name in h[1])
+
+    def enter_machine(self, sub: MS, ev: Ev, parent: MS, how=None):
+        raise NotImplementedError
+
+    def entered(self, ms: MS, r: int, sname: str):
         pass
 
-    def after_entry_hooks(self, ms: MS, r: int, tgt: str, ev: Ev):
-        st = ms.m.state(tgt)
-        if st.kind == 'exit_pt':
-            self.forward_exit(ms, st, ev)
-
     def forward_exit(self, sub: MS, st: State, ev: Ev):
-        """the converted event goes to the enclosing machine (back) / the root (backmp11), which takes
-        the connected transition as soon as its running step is over"""
-        fwd = Ev(st.exit_evt, ev.serial)
-        target = self.parent_of(sub) if self.dialect == 'back' else self.root
-        if self.dialect == 'back':
-            self.process_event(target, fwd, direct=True)
-        else:
-            self.enqueue(target, fwd)
-            if not target.processing:
-                self.drain(target)
-
-    def parent_of(self, sub: MS):
-        def walk(ms):
-            for s in ms.subs.values():
-                if s is sub:
-                    return ms
-                r = walk(s)
-                if r is not None:
-                    return r
-            return None
-        return walk(self.root)
-
-    def after_machine_entry(self, sub: MS):
-        self.completion(sub)
-        self.drain(sub)
-
-    def enqueue(self, ms: MS, ev: Ev):
-        ev.kind = 'q'
-        ms.queue.append(ev)
-
-    def process_event(self, ms: MS, ev: Ev, direct: bool, from_parent=False, from_queue=False):
-        if self.has_blocking(ms.m) and ev.name is not None and self.is_blocking_active(ms, ev):
-            return HT
-        if ms.processing:
-            ms.queue.append(ev)
-            return HT
-        if self.dialect == 'mp11' and not from_parent and not from_queue and ev.name is not None and self.mp11_is_deferred(ms, ev):
-            ev.kind = 'd'
-            ms.queue.append(ev)
-            return HD
-        ms.processing = True
-        try:
-            res = self.dispatch(ms, ev, direct)
-        except Injected:
-            self.callback('C', ms, 0, ev)
-            res = HF
-        finally:
-            ms.processing = False
-        if from_queue and self.dialect == 'mp11':
-            return res
-        self.post_step(ms, res, from_queue)
-        return res
-
-    def post_step(self, ms: MS, res, from_queue):
-        if self.dialect == 'back':
-            if res & HT:
-                self.completion(ms)
-            if not from_queue:
-                self.drain(ms)
-        else:
-            self.completion(ms)
-            self.drain(ms)
-
-    def completion(self, ms: MS):
-        """fire enabled completion transitions of the active states of ms, chains included"""
-        if not any(r.evt is None for r in ms.m.rows):
-            return
-        progress = True
-        while progress:
-            progress = False
-            if self.has_blocking(ms.m) and self.is_blocking_active(ms, Ev(None, -1)):
-                return
-            ev = Ev(None, -1)
-            ms.processing = True
-            try:
-                res = HF
-                for r in range(len(ms.m.initial)):
-                    res |= self.region_dispatch(ms, r, ev)
-            except Injected:
-                self.callback('C', ms, 0, ev)
-                res = HF
-            finally:
-                ms.processing = False
-            if res & HT:
-                progress = True
-
-    def drain(self, ms: MS):
-        while ms.queue:
-            ev = ms.queue.pop(0)
-            self.process_event(ms, ev, direct=(ev.kind != 'fromparent'), from_queue=True)
-            if self.dialect == 'back':
-                pass
-
-    def mp11_is_deferred(self, ms: MS, ev: Ev):
-        return False
-
-    def defer_store(self, ms: MS, ev: Ev):
-        raise ModelError('deferral not modelled yet')
-
-    def defer_action(self, ms: MS, ev: Ev):
-        raise ModelError('deferral not modelled yet')
-
-    def defer_api(self, ms: MS, ev: Ev):
-        raise ModelError('deferral not modelled yet')
+        raise NotImplementedError
 
     # ------------------------------------------------------------------ driver operations
     def begin_op(self, tape: dict):
@@ -560,10 +471,14 @@ class World:
         self.trace = []
         self.occ = {}
         self.asked = set()
+        self.lost = []
+        self.flags = set()
+        self.tstack = []
 
     def op(self, name, evid, tape):
         """returns (ret, trace tokens)"""
         self.begin_op(tape)
+        self.cur_op = name
         ret = -1
         root = self.root
         if name == 'start':
@@ -573,39 +488,29 @@ class World:
         elif name == 'pe':
             s = self.next_serial
             self.next_serial += 1
-            ev = Ev(self.z.events[evid - 1], s)
-            ret = self.process_event(root, ev, direct=True)
+            ret = self.api_process_event(root, Ev(self.z.events[evid - 1], s))
         elif name == 'eq':
             s = self.next_serial
             self.next_serial += 1
-            self.enqueue(root, Ev(self.z.events[evid - 1], s))
+            self.api_enqueue(root, Ev(self.z.events[evid - 1], s))
         elif name == 'xq':
-            if not root.processing:
-                self.drain(root)
+            self.api_execute_queued(root)
         elif name == 'xs':
-            if root.queue and not root.processing:
-                ev = root.queue.pop(0)
-                self.process_event(root, ev, direct=True, from_queue=True)
+            self.api_execute_single(root)
         else:
             raise ModelError(name)
         return ret, list(self.trace)
-
-    def do_start(self):
-        root = self.root
-        ev = Ev('$start', -1)
-        if self.dialect == 'mp11' and self.started:
-            return
-        self.started = True
-        if self.dialect == 'back':
-            root.active = list(root.m.initial)
-        self.enter_machine(root, ev, None)
 
     def do_stop(self):
         root = self.root
         if self.dialect == 'mp11' and not self.started:
             return
         self.started = False
-        self.exit_machine(root, Ev('$stop', -1), None)
+        self.tstack.append(root)
+        try:
+            self.exit_machine(root, Ev('$stop', -1), None)
+        finally:
+            self.tstack.pop()
 
     # ------------------------------------------------------------------ observation
     def config(self):
@@ -621,23 +526,357 @@ class World:
             walk(self.root)
         return tuple(out)
 
-    def pending(self):
-        n = 0
+    def config_ids(self):
+        """configuration read through the active ids only (what current_state() reports at each level
+        reachable through active submachine ids), regardless of entry/exit bookkeeping"""
+        out = []
 
         def walk(ms):
-            nonlocal n
-            n += len(ms.queue) + len(ms.deferred)
+            out.append((ms.m.mid, tuple(ms.active)))
+            for n in ms.active:
+                if ms.m.state(n).kind == 'sub':
+                    walk(ms.subs[n])
+        walk(self.root)
+        return tuple(out)
+
+    def pending_serials(self):
+        out = []
+
+        def walk(ms):
+            for e in ms.queue:
+                if e.kind == 'e' and not e.marked:
+                    out.append(e.serial)
+            for e in ms.deferred:
+                out.append(e.serial)
             for s in ms.subs.values():
                 walk(s)
         walk(self.root)
-        return n
+        return sorted(out)
 
     def canon(self):
         """canonical model state: what the future behaviour can depend on"""
         def walk(ms):
             return (ms.m.mid, tuple(ms.active) if ms.inside else None, tuple(ms.hist) if ms.m.history is not None else None,
-                    ms.processing, tuple((e.name, e.kind) for e in ms.queue), tuple((e.name, e.kind) for e in ms.deferred),
+                    ms.processing, tuple((e.name, e.kind) for e in ms.queue if not e.marked), tuple(e.name for e in ms.deferred),
                     tuple(walk(s) for s in ms.subs.values()))
         cm = tuple(sorted((g, v[2]) for g, v in self.cmemo.items()
                           if self.entries.get(v[0], 0) == v[1] and self.parity.get(v[0], 0) == 1))
         return (walk(self.root), cm, self.started)
+
+
+# =================================================================================================
+class BackWorld(World):
+    """run-to-completion layer of back / back11"""
+
+    def has_deferred(self, m: Machine):
+        return m.activate_deferred or any(s.defer for s in m.states) or any(
+            (r.defer for r in m.rows)) or any(ir.defer for s in m.states for ir in s.irows) or any(ir.defer for ir in m.irows)
+
+    def api_process_event(self, ms: MS, ev: Ev):
+        return self.pei(ms, ev, DIRECT)
+
+    def api_enqueue(self, ms: MS, ev: Ev):
+        ev.flags = MSGQ
+        ms.queue.append(ev)
+
+    def api_defer(self, ms: MS, ev: Ev):
+        self.back_defer(ms, ev)
+
+    def api_execute_queued(self, ms: MS):
+        self.drain(ms)
+
+    def api_execute_single(self, ms: MS):
+        if ms.queue:
+            e = ms.queue.pop(0)
+            self.pei(ms, e.plain(), e.flags)
+
+    def sub_process(self, sub: MS, ev: Ev):
+        return self.pei(sub, ev.plain(), 0)
+
+    def back_defer(self, ms: MS, ev: Ev):
+        e = ev.plain()
+        e.seq = (ms.cur_seq + 1) % self.seqmod
+        ms.deferred.append(e)
+
+    def action_defer(self, ms: MS, ev: Ev):
+        self.back_defer(ms, ev)
+
+    def pei(self, ms: MS, ev: Ev, src):
+        """process_event_internal"""
+        if ev.name is not None and self.blocked(ms, ev):
+            if src & DEFERRED:
+                # PROPERTY (C05/C11): a deferred event that is re-offered while the machine is blocked
+                # is not a 'subsequently submitted' event: it stays deferred through the blockage
+                self.back_defer(ms, ev)
+                return HD
+            self.lost.append(ev.serial)
+            self.swallowed.add(ev.serial)
+            return HT
+        if ev.name is None and self.blocked(ms, ev):
+            return HT
+        if ms.processing:
+            q = ev.plain()
+            q.flags = DIRECT | MSGQ
+            ms.queue.append(q)
+            return HT
+        ms.processing = True
+        try:
+            res = self.dispatch(ms, ev, bool(src & DIRECT) or ms.parent is None)
+        except Injected:
+            self.callback('C', ms, 0, ev)
+            res = HF
+        ms.processing = False
+        if self.has_completion(ms.m) and (res & HT):
+            self.pei(ms, Ev(None, -1), src | DIRECT)
+        if not (src & DEFERRED):
+            self.handle_deferred(ms, bool(res & HT))
+            if not (src & MSGQ):
+                self.drain(ms)
+        return res
+
+    def handle_deferred(self, ms: MS, new_seq):
+        if not self.has_deferred(ms.m):
+            return
+        if new_seq:
+            ms.cur_seq = (ms.cur_seq + 1) % self.seqmod
+        not_only_deferred = False
+        while ms.deferred:
+            e = ms.deferred[0]
+            if e.seq != ms.cur_seq:
+                break
+            ms.deferred.pop(0)
+            res = self.pei(ms, e.plain(), DIRECT | DEFERRED)
+            if res != HF and res != HD:
+                not_only_deferred = True
+            if not_only_deferred:
+                break
+        if not_only_deferred:
+            # restore arrival order: events re-deferred in this pass carry the higher number.
+            # PROPERTY (C05): arrival order is kept; the implementation compares the numbers as
+            # signed char, which inverts the order at the wrap -- the model does not.
+            hi = [e for e in ms.deferred if e.seq != ms.cur_seq]
+            lo = [e for e in ms.deferred if e.seq == ms.cur_seq]
+            ms.deferred = hi + lo
+            for e in ms.deferred:
+                e.seq = (ms.cur_seq + 1) % self.seqmod
+            self.handle_deferred(ms, True)
+
+    def drain(self, ms: MS):
+        while ms.queue:
+            e = ms.queue.pop(0)
+            self.pei(ms, e.plain(), e.flags)
+
+    def enter_machine(self, sub: MS, ev: Ev, parent: MS, how=None):
+        """do_entry of a submachine"""
+        m = sub.m
+        own_ev = ev
+        if how is not None:
+            own_ev = ev.plain()
+            own_ev.anyof = ev.anyof
+            own_ev.wrapped = True
+        targets = self.entry_targets(sub, ev, how)
+        sub.active = list(self.entry_targets(sub, ev, None))
+        sub.processing = True
+        self.callback('N', parent, m.own_sid, own_ev)
+        sub.inside = True
+        sub.active = list(targets)
+        for r in range(len(m.initial)):
+            self.enter_state(sub, sub.active[r], ev)
+        if how is not None and how[0] == 'entry':
+            # entry point: the inner transition triggered by the same event; issued while the machine
+            # still blocks, so it waits in the message queue
+            self.pei(sub, ev.plain(), DIRECT)
+        sub.processing = False
+        # PROPERTY (C10): completion transitions of the entered states fire before any queued or
+        # deferred event is dispatched
+        if self.has_completion(m):
+            self.pei(sub, Ev(None, -1), DIRECT | DEFERRED | MSGQ)
+        self.handle_deferred(sub, True)
+        self.drain(sub)
+
+    def named_regions(self, sub, how):
+        names = how[2] if how[0] == 'fork' else [how[2]]
+        return {sub.m.state(n).region for n in names}
+
+    def forward_exit(self, sub: MS, st: State, ev: Ev):
+        fwd = Ev(st.exit_evt, ev.serial)
+        self.pei(sub.parent, fwd, DIRECT)
+
+    def do_start(self):
+        """PROPERTY (C04): initial entry behaviours are part of a running step: events they submit
+        are stored and dispatched afterwards (the implementation's start() does not block)."""
+        root = self.root
+        self.started = True
+        ev = Ev('$start', -1)
+        root.active = list(root.m.initial)
+        root.processing = True
+        self.callback('N', root, 0, ev)
+        root.inside = True
+        for r in range(len(root.m.initial)):
+            self.enter_state(root, root.active[r], ev)
+        root.processing = False
+        if self.has_completion(root.m):
+            self.pei(root, Ev(None, -1), DIRECT)
+        self.drain(root)
+
+
+# =================================================================================================
+class Mp11World(World):
+    """run-to-completion layer of backmp11"""
+
+    def api_process_event(self, ms: MS, ev: Ev):
+        return self.pei(ms, ev, 'direct')
+
+    def api_enqueue(self, ms: MS, ev: Ev):
+        self.pool_add(ms, ev, False)
+
+    def api_defer(self, ms: MS, ev: Ev):
+        self.pool_add(ms, ev, ms.processing)
+
+    def api_execute_queued(self, ms: MS):
+        self.process_pool(ms)
+
+    def api_execute_single(self, ms: MS):
+        self.process_pool(ms, 1)
+
+    def sub_process(self, sub: MS, ev: Ev):
+        return self.pei(sub, ev.plain(), 'sub')
+
+    def pool_add(self, ms: MS, ev: Ev, next_rtc_seq):
+        e = ev.plain()
+        e.seq = ms.cur_seq if next_rtc_seq else (ms.cur_seq - 1) % self.seqmod
+        ms.queue.append(e)
+
+    def action_defer(self, ms: MS, ev: Ev):
+        self.pool_add(ms, ev, ms.processing)
+
+    def is_deferred(self, ms: MS, ev: Ev):
+        res = False
+        for st in self.active_states_rec(ms):
+            if ev.name in st.defer:
+                if st.cond_defer:
+                    res = self.deferq(st, ev) or res
+                else:
+                    res = True
+        return res
+
+    def pei(self, ms: MS, ev: Ev, info):
+        if self.blocked(ms, ev):
+            self.lost.append(ev.serial)
+            self.swallowed.add(ev.serial)
+            return HT
+        if info != 'pool':
+            if ms.processing or (info != 'sub' and self.is_deferred(ms, ev)):
+                self.pool_add(ms, ev, False)
+                return HD
+            ms.cur_seq = (ms.cur_seq + 1) % self.seqmod
+        ms.processing = True
+        try:
+            res = self.dispatch(ms, ev, info != 'sub')
+        except Injected:
+            self.callback('C', ms, 0, ev)
+            res = HF
+        ms.processing = False
+        if info != 'pool':
+            self.process_pool(ms)
+        return res
+
+    def process_pool(self, ms: MS, max_events=None):
+        if not ms.queue or ms.processing:
+            return 0
+        i = 0
+        processed = 0
+        while True:
+            e = ms.queue[i]
+            if e.marked:
+                del ms.queue[i]
+                if i == len(ms.queue):
+                    break
+                continue
+            if e.kind == 'c':
+                e.marked = True
+                r = self.completion_transition(ms, e)
+            else:
+                if e.seq == ms.cur_seq or self.is_deferred(ms, e):
+                    r = None
+                else:
+                    e.marked = True
+                    r = self.pei(ms, e.plain(), 'pool')
+            if r is None:
+                i += 1
+                if i == len(ms.queue):
+                    break
+                continue
+            if r != HD:
+                processed += 1
+                if max_events is not None and processed == max_events:
+                    break
+            i = 0
+            if not (r & HD):
+                ms.cur_seq = (ms.cur_seq + 1) % self.seqmod
+            if i == len(ms.queue):
+                break
+        return processed
+
+    def completion_transition(self, ms: MS, e: Ev):
+        if self.blocked(ms, Ev(None, -1)) or any(s.kind == 'interrupt' for s in self.active_states_rec(ms)):
+            return HT
+        ev = Ev(None, -1)
+        ms.processing = True
+        res = HF
+        try:
+            # only the rows of the state that was entered, in the region it was entered in
+            if ms.active[e.region] == e.state:
+                res = self.region_completion(ms, e.region, ev)
+        except Injected:
+            self.callback('C', ms, 0, ev)
+            res = HF
+        ms.processing = False
+        return res
+
+    def region_completion(self, ms: MS, r: int, ev: Ev):
+        return self.region_dispatch(ms, r, ev)
+
+    def entered(self, ms: MS, r: int, sname: str):
+        st = ms.m.state(sname)
+        if st.kind != 'sub' and self.state_has_completion(ms.m, sname):
+            c = Ev(None, -1, 'c')
+            c.region = r
+            c.state = sname
+            ms.queue.insert(0, c)
+
+    def enter_machine(self, sub: MS, ev: Ev, parent: MS, how=None):
+        m = sub.m
+        targets = self.entry_targets(sub, ev, how)
+        sub.processing = True
+        # PROPERTY (C04): events submitted from the machine's own entry behaviour are not lost; the
+        # pool of a machine entered without (applicable) history is reset before that behaviour runs
+        if not self.history_applies(sub, ev):
+            for e in sub.queue:
+                if e.kind == 'e' and not e.marked:
+                    self.lost.append(e.serial)
+            sub.queue = []
+        self.callback('N', parent if parent is not None else sub, m.own_sid, ev)
+        sub.inside = True
+        sub.active = list(targets)
+        for r in range(len(m.initial)):
+            self.enter_state(sub, sub.active[r], ev)
+            self.entered(sub, r, sub.active[r])
+        sub.processing = False
+        self.process_pool(sub)
+        if how is not None and how[0] == 'entry':
+            self.pei(sub, ev.plain(), 'direct')
+
+    def forward_exit(self, sub: MS, st: State, ev: Ev):
+        fwd = Ev(st.exit_evt, ev.serial)
+        self.pool_add(self.root, fwd, False)
+
+    def do_start(self):
+        if self.started:
+            return
+        self.started = True
+        self.enter_machine(self.root, Ev('$start', -1), None)
+
+
+def make_world(zoo, dialect, opts=None):
+    return BackWorld(zoo, dialect, opts) if dialect == 'back' else Mp11World(zoo, dialect, opts)
